@@ -206,19 +206,53 @@ Theorem C11_instants_preserved :
 Proof. exact datetime_fn_instant. Qed.
 Print Assumptions C11_instants_preserved.
 
-(* THE PROPERTY at full strength: every pair of bounds (offsets, fractional seconds, equal
-   bounds, now/today), every draw, every presentation zone tz (None = timezone: False):
-   start <= v <= end as the instants the user wrote; reversed bounds are a DataGenError. *)
+(* THE PROPERTY at full strength: every pair of bounds (absolute with offsets / fractional
+   seconds, equal bounds, now / today, relative such as -30d or +1y), every draw, every
+   presentation zone tz (None = timezone: False): start <= v <= end as the instants the user
+   wrote; reversed bounds are a DataGenError.  The clock is an input: cs is the reading used when
+   the start bound is resolved, ce the reading used for the end bound (the code reads the clock
+   once per bound); the instants are those of C11_parse_datetimespec_meaning.  In the
+   correspondence runs the harness freezes the clock (template_funcs' `datetime.now`) at one
+   reading and passes that reading as cs = ce. *)
 Theorem C11_datetime_between_bounds :
-  forall c s e tz num den ps pe,
-  parse_datetimespec c s = Ok ps -> parse_datetimespec c e = Ok pe -> 0 <= num < den ->
+  forall cs ce s e tz num den ps pe,
+  parse_datetimespec cs s = Ok ps -> parse_datetimespec ce e = Ok pe -> 0 <= num < den ->
   (instant pe < instant ps ->
-     forall d, exists m, datetime_between c s e tz d den = Err (DGE m)) /\
+     forall d, exists m, datetime_between cs ce s e tz d den = Err (DGE m)) /\
   (instant ps <= instant pe ->
-     exists v o, datetime_between c s e tz (Some num) den = Ok (v, o) /\
+     exists v o, datetime_between cs ce s e tz (Some num) den = Ok (v, o) /\
                  instant ps <= v <= instant pe /\ (o = tz \/ o = bound_zone tz)).
 Proof. exact datetime_between_bounds. Qed.
 Print Assumptions C11_datetime_between_bounds.
+
+(* what a datetime bound denotes *)
+Theorem C11_parse_datetimespec_meaning :
+  forall c,
+  (forall w o, exists ps, parse_datetimespec c (SStamp (mkStamp w o)) = Ok ps /\
+                          instant ps = instant (mkStamp w o)) /\
+  (forall d, exists ps, parse_datetimespec c (SDate d) = Ok ps /\ instant ps = d * DAYUS) /\
+  (exists ps, parse_datetimespec c SToday = Ok ps /\ instant ps = today c * DAYUS) /\
+  (exists ps, parse_datetimespec c SNow = Ok ps /\ instant ps = now_us c) /\
+  (forall y mo w d h mi s, exists ps,
+      parse_datetimespec c (SRel y mo w d h mi s) = Ok ps /\
+      instant ps = now_us c + rel_seconds y mo w d h mi s * US).
+Proof. exact parse_datetimespec_meaning. Qed.
+Print Assumptions C11_parse_datetimespec_meaning.
+
+(* relative bounds spelled out (-30d .. +1y): a = reading + offset, b = later reading + offset *)
+Theorem C11_datetime_between_relative_bounds :
+  forall cs ce y1 mo1 w1 d1 h1 mi1 s1 y2 mo2 w2 d2 h2 mi2 s2 tz num den,
+  0 <= num < den ->
+  let a := now_us cs + rel_seconds y1 mo1 w1 d1 h1 mi1 s1 * US in
+  let b := now_us ce + rel_seconds y2 mo2 w2 d2 h2 mi2 s2 * US in
+  (b < a -> forall d, exists m,
+      datetime_between cs ce (SRel y1 mo1 w1 d1 h1 mi1 s1) (SRel y2 mo2 w2 d2 h2 mi2 s2) tz d den
+      = Err (DGE m)) /\
+  (a <= b -> exists v o,
+      datetime_between cs ce (SRel y1 mo1 w1 d1 h1 mi1 s1) (SRel y2 mo2 w2 d2 h2 mi2 s2) tz
+                       (Some num) den = Ok (v, o) /\ a <= v <= b).
+Proof. exact datetime_between_relative. Qed.
+Print Assumptions C11_datetime_between_relative_bounds.
 
 (* independent of Faker: whatever value rc it returns, min(max(rc, start), end) is inside *)
 Theorem C11_clamp_any_draw :
@@ -231,10 +265,10 @@ Print Assumptions C11_clamp_any_draw.
 (* the clamp is not what produces the values: on whole-second starts with the end in a later
    second the result is exactly Faker's draw *)
 Theorem C11_datetime_between_unclamped :
-  forall c s e tz num den ps pe,
-  parse_datetimespec c s = Ok ps -> parse_datetimespec c e = Ok pe -> 0 <= num < den ->
+  forall cs ce s e tz num den ps pe,
+  parse_datetimespec cs s = Ok ps -> parse_datetimespec ce e = Ok pe -> 0 <= num < den ->
   instant ps mod US = 0 -> floor_sec (instant ps) < floor_sec (instant pe) ->
-  datetime_between c s e tz (Some num) den =
+  datetime_between cs ce s e tz (Some num) den =
     Ok (faker_dt_between (floor_sec (instant ps)) (floor_sec (instant pe)) num den, tz).
 Proof. exact datetime_between_unclamped. Qed.
 Print Assumptions C11_datetime_between_unclamped.
@@ -244,8 +278,8 @@ Example C11_timezone_false_regression :
   let c := mkClock 0 0 in
   let s := mkStamp (w_10h + 900000) None in
   let e := mkStamp (w_10h + 3 * US) None in
-  datetime_between c (SStamp s) (SStamp e) None (Some 0) 1024 = Ok (instant s, None) /\
-  datetime_between c (SStamp s) (SStamp e) None (Some 512) 1024 = Ok (w_10h + 1500000, None).
+  datetime_between c c (SStamp s) (SStamp e) None (Some 0) 1024 = Ok (instant s, None) /\
+  datetime_between c c (SStamp s) (SStamp e) None (Some 512) 1024 = Ok (w_10h + 1500000, None).
 Proof. exact regression_timezone_false. Qed.
 Print Assumptions C11_timezone_false_regression.
 
@@ -254,13 +288,13 @@ Example C11_offset_regression :      (* K4: start 10:00-05:00 = 15:00Z, end 18:0
   (let c := mkClock 0 0 in
    let s := mkStamp w_10h (Some (-18000)) in
    let e := mkStamp (w_10h + 8 * 3600 * US) (Some 0) in
-   datetime_between c (SStamp s) (SStamp e) (Some 0) (Some 0) 1024 = Ok (instant s, Some 0) /\
-   datetime_between c (SStamp s) (SStamp e) (Some 0) (Some 1023) 1024
+   datetime_between c c (SStamp s) (SStamp e) (Some 0) (Some 0) 1024 = Ok (instant s, Some 0) /\
+   datetime_between c c (SStamp s) (SStamp e) (Some 0) (Some 1023) 1024
      = Ok (instant e - 10546875, Some 0)) /\
   (let c := mkClock 0 0 in            (* start 10:00+05:00 = 05:00Z, end 06:00Z: accepted *)
    let s := mkStamp w_10h (Some 18000) in
    let e := mkStamp (w_10h - 4 * 3600 * US) (Some 0) in
-   datetime_between c (SStamp s) (SStamp e) (Some 0) (Some 512) 1024
+   datetime_between c c (SStamp s) (SStamp e) (Some 0) (Some 512) 1024
      = Ok (instant s + 1800 * US, Some 0)).
 Proof. split; [exact regression_offset | exact regression_offset_valid_range_accepted]. Qed.
 Print Assumptions C11_offset_regression.
@@ -268,7 +302,7 @@ Print Assumptions C11_offset_regression.
 Example C11_equal_bounds_regression : (* K10 *)
   let c := mkClock 0 0 in
   let s := mkStamp w_10h None in
-  datetime_between c (SStamp s) (SStamp s) (Some 0) (Some 512) 1024 = Ok (instant s, Some 0).
+  datetime_between c c (SStamp s) (SStamp s) (Some 0) (Some 512) 1024 = Ok (instant s, Some 0).
 Proof. exact regression_equal_bounds. Qed.
 Print Assumptions C11_equal_bounds_regression.
 
@@ -276,7 +310,7 @@ Example C11_subsecond_start_regression : (* K11: start 10:00:00.9 *)
   let c := mkClock 0 0 in
   let s := mkStamp (w_10h + 900000) None in
   let e := mkStamp (w_10h + 5 * US) None in
-  datetime_between c (SStamp s) (SStamp e) (Some 0) (Some 0) 1024 = Ok (instant s, Some 0).
+  datetime_between c c (SStamp s) (SStamp e) (Some 0) (Some 0) 1024 = Ok (instant s, Some 0).
 Proof. exact regression_subsecond_start. Qed.
 Print Assumptions C11_subsecond_start_regression.
 
@@ -285,9 +319,9 @@ Theorem C11_between_possible_sound :
   (forall c s e num den v,
      0 <= num < den -> run_fn (FDate c s e) (Some num) den = Ok v ->
      possible (FDate c s e) v = true) /\
-  (forall c s e tz num den v,
-     0 <= num < den -> run_fn (FDateTime c s e tz) (Some num) den = Ok v ->
-     possible (FDateTime c s e tz) v = true).
+  (forall cs ce s e tz num den v,
+     0 <= num < den -> run_fn (FDateTime cs ce s e tz) (Some num) den = Ok v ->
+     possible (FDateTime cs ce s e tz) v = true).
 Proof. split; [exact date_between_possible | exact datetime_between_possible]. Qed.
 Print Assumptions C11_between_possible_sound.
 
@@ -315,7 +349,13 @@ Example C11_ex_date :          (* 2024-02-28 .. 2024-03-01 = days 19781 .. 19783
 Proof. vm_compute. repeat split. Qed.
 
 Example C11_ex_datetime :
-  datetime_between (mkClock 0 0) (SStamp (mkStamp w_10h None))
+  datetime_between (mkClock 0 0) (mkClock 0 0) (SStamp (mkStamp w_10h None))
                    (SStamp (mkStamp (w_10h + 7200 * US) None)) (Some 18000) (Some 1023) 1024
   = Ok (w_10h + 7192968750, Some 18000).
+Proof. vm_compute. reflexivity. Qed.
+
+Example C11_ex_datetime_relative :   (* -30d .. +1y at the reading 2023-01-01T10:00:00.25Z *)
+  datetime_between (mkClock (w_10h + 250000) 19358) (mkClock (w_10h + 250000) 19358)
+                   (SRel 0 0 0 (-30) 0 0 0) (SRel 1 0 0 0 0 0 0) (Some 0) (Some 0) 1024
+  = Ok (w_10h + 250000 - 30 * 86400 * US, Some 0).
 Proof. vm_compute. reflexivity. Qed.
